@@ -346,8 +346,11 @@ def _init_pool_worker():
         sys.stdout = open(os.devnull, "w")     # the library prints debug output in places
 
 
-def pmap(fn, items, workers=None, chunksize=1):
-    """Map fn over items in fresh worker processes (oqupy imported from REPO)."""
+def pmap(fn, items, workers=None, chunksize=1, timeout=7200):
+    """Map fn over items in fresh worker processes (oqupy imported from REPO).
+    A worker that dies (e.g. out of memory) or a map that exceeds `timeout` seconds is a
+    machinery error - never a hang and never a verdict."""
+    import concurrent.futures as cf
     import multiprocessing as mp
     items = list(items)
     if not items:
@@ -358,5 +361,16 @@ def pmap(fn, items, workers=None, chunksize=1):
         _init_worker()
         return [fn(x) for x in items]
     ctx = mp.get_context("fork")
-    with ctx.Pool(workers, initializer=_init_pool_worker) as pool:
-        return pool.map(fn, items, chunksize=chunksize)
+    ex = cf.ProcessPoolExecutor(max_workers=workers, mp_context=ctx, initializer=_init_pool_worker)
+    try:
+        return list(ex.map(fn, items, chunksize=chunksize, timeout=timeout))
+    except cf.process.BrokenProcessPool as e:
+        raise MachineryError("a worker process died (out of memory?) while running %s" % getattr(fn, "__name__", fn)) from e
+    except cf.TimeoutError as e:
+        raise MachineryError("worker pool timed out after %ss running %s" % (timeout, getattr(fn, "__name__", fn))) from e
+    finally:
+        procs = list(getattr(ex, "_processes", {}).values())
+        ex.shutdown(wait=False, cancel_futures=True)
+        for p in procs:
+            if p.is_alive():
+                p.terminate()
